@@ -1,3 +1,176 @@
-From Coq Require Import ZArith.
+(* C17  Time conversions denote the same UTC instant for every input representation.
+   Only statements; every proof is [exact lemma].
+   Model: OSU.Model.TimeConv (hand-written, follows tools/time.py) and OSU.Generated.TimeInt (the packed
+   integer decoders, translated from the CURRENT Python source on every run by harness/translate_timeint.py).
+   Instants are Z microseconds since 1970-01-01T00:00:00 UTC; [same_instant loc r t] says: to_datetime_utc
+   (run in a process whose local zone has UTC offset [loc]) returns valid, timezone-aware datetimes with
+   utcoffset 0 whose instants are the tree [t].  All theorems are over Z / lists: no axioms. *)
+From Coq Require Import ZArith List Bool.
+From OSU.Lib Require Import TimeAuxCalendar.
 From OSU.Model Require Import TimeConv.
 From OSU.Generated Require Import TimeInt.
+From OSU.Proofs Require Import TimeConv.
+Import ListNotations.
+Open Scope Z_scope.
+
+(* ---- calendar: days_from_civil / civil_from_days are mutually inverse on ALL days and ALL valid dates
+        (two 400-year era tables decided by vm_compute, lifted to every era by arithmetic) ---- *)
+Theorem civil_roundtrip_days : forall z,
+  let '(y, m, d) := civil_from_days z in days_from_civil y m d = z /\ valid_dateb y m d = true.
+Proof. exact civil_roundtrip_days_stmt. Qed.
+
+Theorem civil_roundtrip_dates : forall y m d, valid_dateb y m d = true ->
+  civil_from_days (days_from_civil y m d) = (y, m, d).
+Proof. exact civil_days_civil. Qed.
+
+(* the range of the property: day numbers 0 .. 47846 are exactly 1970-01-01 .. 2100-12-31 *)
+Theorem civil_roundtrip_1970_2100 :
+  days_from_civil 1970 1 1 = 0 /\ days_from_civil 2100 12 31 = 47846 /\
+  forall z, 0 <= z < 47847 ->
+    let '(y, m, d) := civil_from_days z in
+    1970 <= y <= 2100 /\ valid_dateb y m d = true /\ days_from_civil y m d = z.
+Proof. exact civil_roundtrip_1970_2100_stmt. Qed.
+
+Theorem fields_instant_roundtrip :
+  (forall f, valid_fieldsb f = true -> fields_of_instant (instant_of_fields f) = f) /\
+  (forall i, instant_of_fields (fields_of_instant i) = i /\ valid_fieldsb (fields_of_instant i) = true).
+Proof. exact fields_instant_roundtrip_stmt. Qed.
+
+(* ---- every scalar representation: same instant, aware, UTC; any local zone ---- *)
+
+(* aware datetime, ANY offset (in particular -12h..+14h in minutes, half hours included) *)
+Theorem utc_same_instant_aware : forall loc f off,
+  same_instant loc (RAware f off) (IInst (instant_of_fields f - off * 1000000)).
+Proof. exact same_instant_aware. Qed.
+
+(* naive datetime: read as UTC -- same instant AND the same calendar fields, whatever the local zone *)
+Theorem utc_same_instant_naive : forall loc f,
+  same_instant loc (RNaive f) (IInst (instant_of_fields f)) /\
+  (valid_fieldsb f = true -> to_datetime_utc loc (RNaive f) = ResDT (mkDT f (Some 0))).
+Proof. exact utc_same_instant_naive_stmt. Qed.
+
+(* ISO-8601 string written character by character: separator T or space, with or without the six
+   fraction digits, zone absent (read as UTC) / Z / +HH:MM / -HH:MM *)
+Theorem utc_same_instant_iso_string : forall loc sep frac f z,
+  sep = cT \/ sep = cSPACE -> valid_fieldsb f = true -> 1 <= fY f <= 9999 ->
+  (frac = false -> fus f = 0) -> zone_ok z ->
+  same_instant loc (RStr (fmt_iso_gen sep frac f z)) (IInst (instant_of_fields f - zoff z * 1000000)).
+Proof. exact same_instant_str. Qed.
+
+(* the parser recovers exactly the fields and the zone that were written *)
+Theorem iso_parse_format : forall sep frac f z,
+  sep = cT \/ sep = cSPACE -> valid_fieldsb f = true -> 1 <= fY f <= 9999 ->
+  (frac = false -> fus f = 0) -> zone_ok z ->
+  parse_iso (fmt_iso_gen sep frac f z) = Some (mkDT f (zone_offset z)).
+Proof. exact parse_iso_fmt. Qed.
+
+Theorem utc_same_instant_epoch_int : forall loc n, same_instant loc (RInt n) (IInst (n * 1000000)).
+Proof. exact same_instant_int. Qed.
+
+(* epoch seconds as the binary float num / 2^k: the microsecond instant nearest to it (strictly closer
+   than half a microsecond) *)
+Theorem utc_same_instant_epoch_float : forall loc num k i, 0 <= k ->
+  2 * Z.abs (num * 1000000 - i * 2 ^ k) < 2 ^ k ->
+  same_instant loc (RFloat num k) (IInst i).
+Proof. exact same_instant_float. Qed.
+
+(* numpy datetime64 (count units of unit_ns nanoseconds): the whole second (floor); exact when the value
+   is a whole number of seconds *)
+Theorem utc_same_instant_datetime64 : forall loc c u,
+  same_instant loc (RDT64 c u) (IInst ((c * u) / 1000000000 * 1000000)) /\
+  (forall s, c * u = s * 1000000000 -> same_instant loc (RDT64 c u) (IInst (s * 1000000))).
+Proof. exact utc_same_instant_datetime64_stmt. Qed.
+
+Theorem none_none : forall loc, to_datetime_utc loc RNone = ResNone /\ same_instant loc RNone INone.
+Proof. exact none_none. Qed.
+
+(* sequences (lists, tuples, arrays, DataArrays; any nesting, any mixture): element-wise, by induction *)
+Theorem utc_same_instant_seq : forall loc l ts, Forall2 (same_instant loc) l ts ->
+  same_instant loc (RSeq l) (ISeq ts).
+Proof. exact same_instant_seq. Qed.
+
+Theorem seq_elementwise : forall loc l,
+  exists rs, to_datetime_utc loc (RSeq l) = ResSeq rs /\ length rs = length l
+             /\ forall k, (k < length l)%nat -> nth k rs ResErr = to_datetime_utc loc (nth k l RNone).
+Proof. exact seq_length. Qed.
+
+(* the result never depends on the time zone of the process *)
+Theorem tz_independent : forall loc1 loc2 r, to_datetime_utc loc1 r = to_datetime_utc loc2 r.
+Proof. exact tz_independent. Qed.
+
+(* ---- round trips ---- *)
+Theorem dt64_roundtrip : forall loc r i, 0 <= i -> same_instant loc r (IInst i) ->
+  to_datetime64 loc r = R64 (i / 1000000 * 1000000000) /\
+  same_instant loc (RDT64 (i / 1000000 * 1000000000) 1) (IInst (i / 1000000 * 1000000)).
+Proof. exact dt64_roundtrip. Qed.
+
+Theorem dt64_roundtrip_seq : forall loc l ins,
+  Forall2 (fun r i => 0 <= i /\ same_instant loc r (IInst i)) l ins ->
+  to_datetime64 loc (RSeq l) = R64Seq (map (fun i => R64 (i / 1000000 * 1000000000)) ins).
+Proof. exact dt64_roundtrip_seq. Qed.
+
+Theorem iso_roundtrip : forall loc r i, same_instant loc r (IInst i) ->
+  1 <= fY (fields_of_instant i) <= 9999 ->
+  datetime_to_iso_time_string loc r = Some (Some (format_iso (fields_of_instant i))) /\
+  same_instant loc (RStr (format_iso (fields_of_instant i))) (IInst i).
+Proof. exact iso_roundtrip. Qed.
+
+Theorem iso_roundtrip_1970_2100 : forall loc r i, same_instant loc r (IInst i) ->
+  0 <= i < 47847 * 86400 * 1000000 ->
+  datetime_to_iso_time_string loc r = Some (Some (format_iso (fields_of_instant i))) /\
+  same_instant loc (RStr (format_iso (fields_of_instant i))) (IInst i).
+Proof. exact iso_roundtrip_1970_2100. Qed.
+
+(* ---- packed integers: statements about the definitions GENERATED from the Python source ---- *)
+
+(* valid packed times: hh (0..23), hhmm and hhmmss with a non-zero hour (see packed_time_forms_overlap) *)
+Theorem timeint_decodes : forall fm h m s, valid_packed_time fm h m s ->
+  py_time_from_timeint (pack_time fm h m s) = h * 3600 + m * 60 + s.
+Proof. exact timeint_decodes. Qed.
+
+Theorem dateint_decodes : forall m d, 1 <= m <= 12 -> 1 <= d <= 31 ->
+  (forall y, 100 <= y <= 9999 -> py_date_from_dateint (pack_date4 y m d) = (y, m, d)) /\
+  (forall yy, 0 <= yy <= 99 -> py_date_from_dateint (pack_date2 yy m d) = (2000 + yy, m, d)).
+Proof. exact dateint_decodes_stmt. Qed.
+
+Theorem packed_datetime : forall m d fm h mi s, valid_packed_time fm h mi s ->
+  (forall y, 100 <= y <= 9999 -> valid_dateb y m d = true ->
+     date_plus_seconds (fst (py_datetime_from_ints (pack_date4 y m d) (pack_time fm h mi s)))
+                       (snd (py_datetime_from_ints (pack_date4 y m d) (pack_time fm h mi s)))
+     = Some (mkDT (mkF y m d h mi s 0) (Some 0))) /\
+  (forall yy, 0 <= yy <= 99 -> valid_dateb (2000 + yy) m d = true ->
+     date_plus_seconds (fst (py_datetime_from_ints (pack_date2 yy m d) (pack_time fm h mi s)))
+                       (snd (py_datetime_from_ints (pack_date2 yy m d) (pack_time fm h mi s)))
+     = Some (mkDT (mkF (2000 + yy) m d h mi s 0) (Some 0))).
+Proof. exact packed_datetime_stmt. Qed.
+
+(* the domain above is forced: the three packings overlap (1 is 01:00:00 as hh and 00:00:01 as hhmmss) *)
+Theorem packed_time_forms_overlap :
+  ~ exists dec : Z -> Z, forall fm h m s,
+      0 <= h <= 23 -> 0 <= m <= 59 -> 0 <= s <= 59 -> (fm = HH -> m = 0 /\ s = 0) -> (fm = HHMM -> s = 0) ->
+      dec (pack_time fm h m s) = h * 3600 + m * 60 + s.
+Proof. exact packed_time_forms_overlap. Qed.
+
+(* ---- non-vacuity: the premises are met by the instant of the repository's own test and friends ---- *)
+Example ex_fields : valid_fieldsb (mkF 2022 11 9 10 20 42 123456) = true
+  /\ instant_of_fields (mkF 2022 11 9 10 20 42 123456) = 1667989242123456.
+Proof. split; vm_compute; reflexivity. Qed.
+
+Example ex_offset_string :
+  to_datetime_utc (-12600)
+    (RStr (fmt_iso_gen cT true (mkF 2022 11 9 15 50 42 123456) (ZoneOff false 5 30)))
+  = ResDT (mkDT (mkF 2022 11 9 10 20 42 123456) (Some 0)).
+Proof. vm_compute. reflexivity. Qed.
+
+Example ex_float : 2 * Z.abs (1749013487548845 * 1000000 - 1667989242123456 * 2 ^ 20) < 2 ^ 20.
+Proof. vm_compute. reflexivity. Qed.
+
+Example ex_packed : valid_packed_time HHMMSS 20 18 13 /\ pack_time HHMMSS 20 18 13 = 201813
+  /\ valid_dateb 2022 11 9 = true /\ pack_date2 22 11 9 = 221109.
+Proof. repeat split; vm_compute; congruence. Qed.
+
+(* what the model says would happen WITHOUT replace(tzinfo=utc): a naive input would be read in the
+   local zone (so the correspondence under TZ=VRF+03:30 sees such a change) *)
+Example ex_naive_local : forall loc f,
+  instant_of_dt (astimezone_utc loc (mkDT f None)) = Some (instant_of_fields f - loc * 1000000).
+Proof. exact naive_astimezone_is_local. Qed.
